@@ -10,6 +10,7 @@ Common part description used by most sub-spaces ("core"):
          pitched events take PITCHES[i] by their index among the pitched events (all distinct)
    x     extra ir objects (dicts) referring to note ids "<pid>n<i>" (i = index in ev)
 """
+from fractions import Fraction
 from itertools import combinations, product
 
 from . import c03_model as M
@@ -89,7 +90,7 @@ def expand(case):
     if "score" in case:
         return case["score"]
     if "parts" in case:
-        def rec(x, counter=[0]):
+        def rec(x):
             if "group" in x:
                 return {"group": x["group"], "children": [rec(y) for y in x["children"]]}
             return core_part(x, x.get("id", "P1"), x.get("name"))
@@ -450,7 +451,7 @@ def gen_D_divisions(without_point=False):
                     segs = [(0, q0), (q0, q0 + 2 * q1)]
                 alpha = []
                 for (lo, hi), q in zip(segs, (q0, q1)):
-                    durs = [d for d in range(1, hi - lo + 1) if M.sym_for(__import__("fractions").Fraction(d, q)) is not None]
+                    durs = [d for d in range(1, hi - lo + 1) if M.sym_for(Fraction(d, q)) is not None]
                     for (s, e) in spans(lo, hi, durs):
                         for v in (1, 2):
                             alpha.append(["n", s, e, v, v])
